@@ -661,6 +661,29 @@ pub fn run(cfg: &Config) -> i32 {
             }
         }
     }
+    // byte-length-preserving non-ASCII: a check on the byte length (4!n = 4 bytes) followed by slicing or
+    // unwrapping is only reached when the multi-byte characters add up to the expected number of bytes:
+    // 2 ASCII bytes -> one 2-byte letter / digit, 4 -> two of them, 3 -> one full-width digit, 4 -> one emoji
+    {
+        let specs = crate::spec::fieldfmt::specs();
+        for spec in &specs {
+            let mut rr = Rng::new(0, "c07-bytelen", 0);
+            let Some(canon) = crate::spec::fieldfmt::candidates(spec, 0, &mut rr, 0).into_iter().find(|c| c.class == "canonical") else { continue };
+            let b = canon.content.as_bytes();
+            if !canon.content.is_ascii() {
+                continue;
+            }
+            for i in 0..b.len().min(48) {
+                for (take, repl) in [(2usize, "é"), (2, "٣"), (4, "٣٤"), (4, "١٢"), (3, "３"), (4, "😀"), (6, "３４")] {
+                    if i + take > b.len() || b[i..i + take].contains(&b'\n') {
+                        continue;
+                    }
+                    let input = format!("{}{}{}", &canon.content[..i], repl, &canon.content[i + take..]);
+                    cases.push(("field/byte-length-preserving".into(), Case::Field { ty: spec.ty.to_string(), input, variant: None }));
+                }
+            }
+        }
+    }
     // values no MT text produces but JSON does: the rule-violating states of the C04 enumeration
     // (sweep points) and every array of the message emptied (a message without its sequences)
     {
